@@ -80,6 +80,8 @@ def summarize(pid, tier, seed, results, meta, t_start, extra_cov=None, known_lin
                     contract=r.get("contract_note", ""), undecided=r.get("undecided"),
                 )
             )
+            if r.get("alpha"):
+                functions[-1]["locals_alpha_renamed_before_verification"] = r["alpha"]
             if r.get("undecided"):
                 undecided.append(dict(function=r["qualname"], reason=r["undecided"]))
             if r.get("canary") not in ("sat", None) and not r.get("undecided"):
@@ -189,6 +191,12 @@ def finish(pid, ev, refuted, unknown, undecided, errors, replay_fn=None, known=N
                 extra = dict(replay_error=str(e))
         if not extra or not extra.get("reproduced"):
             tail = " no-failing-input-found"
+            if o.get("alpha"):
+                # the contracts reached this body through a guessed renaming of its locals: without an input that fails on the real code the
+                # refutation may be an artefact of the guess.  Undecided, not a violation.
+                nviol -= 1
+                unknown.append(dict(o, reason="refuted only on the alpha-renamed body (locals matched to the contract's names by binding order) and no failing input was found on the real code"))
+                continue
         path = write_replay(pid, o, extra)
         lines.append("VIOLATION property=%s replay=%s obligation=%s%s" % (pid, path, o["id"], tail))
         code = 1
